@@ -105,7 +105,7 @@ def render(spec, cls_suffix=""):
                 kw.append(f"{g}={_list_expr(items)}")
         L.append(f"    {st['id']} = State({', '.join(kw)})")
     # transitions
-    for t in spec["transitions"]:
+    def t_kwargs(t):
         kw = []
         conds = [repr(g["name"]) for g in t["guards"] if g["kind"] == "cond"]
         unl = [repr(g["name"]) for g in t["guards"] if g["kind"] == "unless"]
@@ -121,13 +121,21 @@ def render(spec, cls_suffix=""):
                 kw.append(f"{g}={_list_expr(items)}")
         if t["internal"]:
             kw.append("internal=True")
-        args = ", ".join([t["dst"]] + kw)
+        return kw
+
+    explicit = [t for t in spec["transitions"] if t.get("from_any") is None]
+    for t in explicit:
+        args = ", ".join([t["dst"]] + t_kwargs(t))
         L.append(f"    _t{t['i']} = {t['src']}.to({args})")
     for e in spec["events"]:
-        ts = [f"_t{t['i']}" for t in spec["transitions"] if e in t["events"]]
+        ts = [f"_t{t['i']}" for t in explicit if e in t["events"]]
+        for d in spec.get("any_decls", []):
+            if d["event"] == e:
+                proto = spec["transitions"][d["proto"]]
+                ts.append(f"{d['dst']}.from_.any({', '.join(t_kwargs(proto))})")
         L.append(f"    {e} = {' | '.join(ts)}")
-    if spec["transitions"]:
-        L.append("    del " + ", ".join(f"_t{t['i']}" for t in spec["transitions"]))
+    if explicit:
+        L.append("    del " + ", ".join(f"_t{t['i']}" for t in explicit))
     # methods
     for cid, cb in spec["cbs"].items():
         if cb["provider"] == "sm" and cb["kind"] == "method":
